@@ -406,7 +406,7 @@ class SelectedMailbox:
                    _prev=frozen, _messages=self._messages)
         if self._prev is not None:
             with_uid: bool = getattr(command, 'uid', False)
-            untagged = self._compare(self._prev, frozen, with_uid)
+            untagged = list(self._compare(self._prev, frozen, with_uid))
         else:
             untagged = []
         return copy, untagged
